@@ -6,8 +6,8 @@ import subprocess
 import tempfile
 
 from .core import exc_class, hx
-from .fstree import (collect_ids, count_nodes, enc_tree, gen_tree, has_kind, on_disk, shrink_tree, shuffled_scandir,
-                     subdirs)
+from .fstree import (collect_ids, count_nodes, enc_tree, gen_spelling, gen_tree, has_kind, on_disk, shrink_tree,
+                     shuffled_scandir, spelled_root, subdirs)
 
 ID = "C06"
 PROPS = "Props/C06.v"
@@ -16,7 +16,7 @@ OBLIGATION = "Directory.from_disk"
 CASE_TIMEOUT = 60
 SHRINK_BUDGET = 25
 THEOREMS = ["C06_is_git_tree", "C06_walk_refines", "C06_walk_refines_paths", "C06_walk_total", "C06_listing_order_free",
-            "C06_trailing_slash", "C06_trailing_slash_root", "C06_symlink_never_followed", "C06_special_is_empty_file",
+            "C06_trailing_slash", "C06_trailing_slash_root", "C06_norm_path_only_strips_slashes", "C06_symlink_never_followed", "C06_special_is_empty_file",
             "C06_exec_bit", "C06_perms_table", "C06_empty_ignored_is_git", "C06_satisfiable",
             "C06_iter_total", "C06_iter_refines_recursive", "C06_iter_same_ids", "C06_iter_satisfiable",
             "C06_leaf_ids_are_C01_blob_ids"]
@@ -24,18 +24,31 @@ RULE = ("random file-system trees (depth <= 5, <= 120 nodes) materialised in a t
         "(non-UTF-8, spaces, newlines, names colliding with directories in sort order), file sizes 0..1000 plus a few "
         "around the 32768-byte read block, ten permission patterns, relative/absolute/dangling/self symlinks and links to "
         "directories, fifos, empty directories; each tree is read 3 times under a wrapper that shuffles os.scandir, with "
-        "0-3 trailing slashes, and through the CLI; non-trivial = >=1 sub-directory and >=1 non-regular or executable entry")
+        "0-3 trailing slashes, and through the CLI; the ROOT PATH given to from_disk is a case dimension (half of the cases): "
+        "relative / './', '/./', 'x/../' through a real directory, doubled slashes inside, through a symbolic link to an "
+        "ancestor, the root itself a symbolic link (also followed by '/', '/.'), '<dir>/<link>/../<name>' where the link "
+        "points elsewhere so that the lexically collapsed path designates nothing or a DIFFERENT tree (decoy), relative "
+        "versions of these, an absolute path whose first component is a symbolic link; the reference is always the tree "
+        "that was materialised (what the OS designates), never a normalised path; "
+        "non-trivial = >=1 sub-directory and >=1 non-regular or executable entry")
 TRUSTED = ["the OS layer (scandir, lstat, readlink, mkfifo, chmod) is exercised, not modelled: the model receives the tree as data",
            "lib/Sha1.v as an instance of the hash oracle"]
 ASSUMPTIONS = ["names within a directory are distinct, non-empty, free of '/' and NUL (what a POSIX directory can hold)",
+               "which directory a path designates (symbolic links, '..', '.', doubled slashes in it) is resolved by the operating "
+               "system: the model only strips trailing slashes (C06_norm_path_only_strips_slashes); the spellings of the root "
+               "path are exercised by the correspondence check, not modelled",
                "agreement with `git write-tree` is validation of the spec-level definition (thorough tier), not a theorem"]
 
 
 def gen(rng, tier):
     n = 90 if tier == "quick" else 2500
+    small = {"t": "D", "c": [["61", {"t": "D", "c": []}], ["612e62", {"t": "R", "d": "00", "m": 0o644}], ["6c", {"t": "L", "x": "61"}]]}
     cases = [{"tree": {"t": "D", "c": []}, "seed": 1, "slashes": 0},
-             {"tree": {"t": "D", "c": [["61", {"t": "D", "c": []}], ["612e62", {"t": "R", "d": "00", "m": 0o644}],
-                                      ["6c", {"t": "L", "x": "61"}]]}, "seed": 2, "slashes": 2}]
+             {"tree": small, "seed": 2, "slashes": 2},
+             {"tree": small, "seed": 3, "slashes": 0, "spelling": "linkup_decoy"},
+             {"tree": small, "seed": 4, "slashes": 1, "spelling": "linkup_none"},
+             {"tree": small, "seed": 5, "slashes": 0, "spelling": "rootlink_dot"},
+             {"tree": small, "seed": 6, "slashes": 0, "spelling": "firstlink"}]
     for k in range(n):
         opts = {}
         if k % 15 == 0:
@@ -47,7 +60,7 @@ def gen(rng, tier):
                                    [b"docs".hex(), {"t": "D", "c": [[b"f".hex(), {"t": "R", "d": b"x".hex(), "m": 0o644}]]}]]}
             if b"lib".hex() not in [n for n, _ in t["c"]]:
                 t["c"].append([b"lib".hex(), lib])
-        cases.append({"tree": t, "seed": rng.randrange(10**6), "slashes": rng.choice([0, 0, 1, 3])})
+        cases.append({"tree": t, "seed": rng.randrange(10**6), "slashes": rng.choice([0, 0, 1, 3]), "spelling": gen_spelling(rng)})
     return cases
 
 
@@ -73,13 +86,15 @@ def classify(c):
             ks.append(name)
     if c["slashes"]:
         ks.append("trailing-slash")
+    ks.append("root=" + c.get("spelling", "real"))
     return ks
 
 
 def impl(c):
     from swh.model.from_disk import Directory
     res = {}
-    with on_disk(c["tree"]) as root:
+    # root = the plain real path of the materialised tree (reference reads); spelled = the same directory as the case spells it
+    with spelled_root(c["tree"], c.get("spelling", "real")) as (spelled, _tmp, root):
         try:
             d = Directory.from_disk(path=root)
             res["ids"] = {hx(k): v for k, v in collect_ids(d).items()}
@@ -87,7 +102,7 @@ def impl(c):
             orders = []
             for s in range(2):
                 with shuffled_scandir(c["seed"] + s):
-                    d2 = Directory.from_disk(path=root + b"/" * c["slashes"])
+                    d2 = Directory.from_disk(path=spelled + b"/" * c["slashes"])
                 orders.append({hx(k): v for k, v in collect_ids(d2).items()})
             from swh.model import from_disk as _fd
             with shuffled_scandir(c["seed"] + 7):
@@ -150,7 +165,8 @@ def oracle(c, ires, mres):
     if not ires.get("relative_equal", True):
         return "ids depend on whether the directory is given by an absolute or a relative path"
     if not ires["shuffled_equal"]:
-        return "ids depend on the order in which the OS lists entries, or on trailing slashes"
+        return ("ids depend on the order in which the OS lists entries, on trailing slashes, or on how the path of the directory "
+                "is spelled (%s)" % c.get("spelling", "real"))
     if ires["root_ignore_empty"] != mres["pruned_empty_id"]:
         return ("with empty directories ignored the root id %s is not the git tree id %s of the tree without its (recursively) "
                 "empty directories, i.e. what `git add -A && git write-tree` gives" % (ires["root_ignore_empty"], mres["pruned_empty_id"]))
@@ -186,6 +202,8 @@ def shrink(c):
         yield dict(c, tree=t)
     if c["slashes"]:
         yield dict(c, slashes=0)
+    if c.get("spelling", "real") != "real":
+        yield dict(c, spelling="real")
 
 
 def pre_checks(ctx):
@@ -248,7 +266,8 @@ def coq_tree_bytes(t):
 
 
 def coq_from_disk(pid, chosen):
-    """shared by c06.py and c13.py (the two drivers are the same file).  chosen = [(case, request lines of the case)];
+    """shared by c06.py and c13.py (drv_C13.ml is drv_C06.ml plus the pattern filter `pat:` and the `glob` / `oldpass2`
+    requests, which this function does not use).  chosen = [(case, request lines of the case)];
     the Coq terms are built from the very request lines the driver receives; one checksum per case."""
     from . import core
     def nl(h):
